@@ -97,6 +97,8 @@ type session struct {
 	finished map[string]bool
 	// what each runtime caller is in the middle of (watchdog report)
 	phase sync.Map
+	// fault sessions: the adaptation of the current scenario is wedged (a request never returned)
+	wedged bool
 	// plugins whose connection the runtime has closed (hook plugin.closed)
 	closedSeen sync.Map
 	// the last (released) sync block of each caller
